@@ -611,6 +611,52 @@ impl Fam for OneChoice {
     }
 }
 
+/// a tuple variant as the single `$value` choice: written as consecutive same-named elements, or
+/// (the `$text` variant) as a space-separated list. Not in the literal list of the property's
+/// mapping rows, but documented; only shapes that the documentation lets round-trip are used.
+#[derive(Serialize, Deserialize, PartialEq, Debug, Clone)]
+pub enum TupleChoice {
+    Pair(String, u8),
+    Triple(String, bool, String),
+    Unit,
+    #[serde(rename = "$text")]
+    List(u16, String),
+}
+#[derive(Serialize, Deserialize, PartialEq, Debug, Clone)]
+pub struct OneTuple {
+    #[serde(rename = "@k")]
+    pub k: String,
+    #[serde(rename = "$value")]
+    pub c: TupleChoice,
+}
+impl Fam for OneTuple {
+    const NAME: &'static str = "OneTuple";
+    const IGNORES_UNKNOWN_CHILDREN: bool = false;
+    fn values(level: usize) -> Vec<Self> {
+        let mut v = vec![OneTuple { k: "k".into(), c: TupleChoice::Unit }];
+        for s in text_strings(level) {
+            v.push(OneTuple { k: "k".into(), c: TupleChoice::Pair(s.clone(), 7) });
+            v.push(OneTuple { k: "k".into(), c: TupleChoice::Triple(s.clone(), true, s.clone()) });
+            // list items cannot contain blanks (documented: they are the separators)
+            if !s.is_empty() && !s.chars().any(|c| c.is_whitespace()) {
+                v.push(OneTuple { k: "k".into(), c: TupleChoice::List(65535, s.clone()) });
+            }
+        }
+        v
+    }
+    fn payload2(s: &str, strict: bool) -> Vec<Self> {
+        let mut v = Vec::new();
+        if !strict || trimmed(s) {
+            v.push(OneTuple { k: "k".into(), c: TupleChoice::Pair(s.to_string(), 0) });
+            v.push(OneTuple { k: "k".into(), c: TupleChoice::Triple("a".into(), false, s.to_string()) });
+        }
+        if !strict || (!s.is_empty() && !s.chars().any(|c| matches!(c, ' ' | '\t' | '\r' | '\n'))) {
+            v.push(OneTuple { k: "k".into(), c: TupleChoice::List(1, s.to_string()) });
+        }
+        v
+    }
+}
+
 /// mixed content: elements and text items, no two adjacent text items
 #[derive(Serialize, Deserialize, PartialEq, Debug, Clone)]
 pub struct Mixed {
@@ -855,7 +901,7 @@ macro_rules! for_each_type {
     ($mac:ident) => {
         $mac!(
             Attrs, OptAttr, Children, TextDefault, TextPlain, TextAndElems, TextVecElem, ValueString, OptElems, VecElems, VecStructs, TextList,
-            AttrList, UnitEnums, OneChoice, Mixed, Nested, MapHolder, NewtypeStr, NewtypeHolder, Numbers, TopEnum, Renamed
+            AttrList, UnitEnums, OneChoice, OneTuple, Mixed, Nested, MapHolder, NewtypeStr, NewtypeHolder, Numbers, TopEnum, Renamed
         );
     };
 }
